@@ -123,6 +123,7 @@ def drive_c11(ctx):
             x = rng.choice(probes)
             rec.add('EncodeValue', P, nt=True, **actions.encode_value(rng.choice([x, [x], {'k': x}]), 'top'))
     rec.add('Toggle', P, **actions.toggle('false'))
+    cross_thread_toggles(ctx, P)
     replay_ladder_histories(ctx, P)
     # fixed-width encoders refuse out-of-range with TypeError
     vals = [x for x in gen.boundary_ints(2)] + [rng.randint(-(1 << 65), 1 << 65) for _ in range(100)]
@@ -162,6 +163,8 @@ def drive_c03(ctx):
     import decimal
     rec, rng = ctx.rec, ctx.rng
     P = ['C03']
+    if ctx.shard == 0:
+        ambient_decimal_context(ctx, P)
     replay_small_values(ctx, P)
     for i, v in enumerate(small_shapes()):
         if mine(ctx, i):
@@ -302,6 +305,8 @@ def drive_c18(ctx):
     rec.add('RoundTrip', P, **actions.roundtrip(heartbeat.Heartbeat(), rng.choice([0, 1, 65535])))
     for _ in range(3 if ctx.quick else 60):
         content_session(ctx, P)
+    if ctx.shard == 4:
+        negotiation_then_content(ctx, P, 'RoundTrip')
     # histories of frames whose (type, channel, size) triples coincide when any field is truncated to 16 bits or
     # shifted into a neighbour: a small body on channel c|1, then a body 65536 bytes longer on channel c, ...
     if ctx.shard in (1, 2, 3):
@@ -332,6 +337,8 @@ def drive_c04(ctx):
     from pamqp import heartbeat, header
     rec, rng = ctx.rec, ctx.rng
     P = ['C04']
+    if ctx.shard == 2:
+        ambient_decimal_context(ctx, P)
     for f in small_frames(ctx):
         rec.add('RoundTrip', P, nt=True, **actions.roundtrip(f, rng.choice([1, 65535])))
     replay_small_values(ctx, P, both_modes=True)
@@ -452,9 +459,16 @@ def drive_c14(ctx):
             _frame.unmarshal(_frame.marshal(f_, c_))
         except Exception:  # noqa
             pass
+    for label, b in itertools.islice(fuzz_inputs(ctx, 1), 0, None, 17 if ctx.quick else 3):
+        try:
+            _frame.unmarshal(b)
+        except Exception:  # noqa
+            pass
     items2 = list(commands.INDEX_MAPPING.items())
     rec.add('MappingKeys', P, nt=True, second_pass=True, keys=sorted(as_int(k) for k, _ in items2), n=len(items2))
     for key, cls in items2:
+        if not isinstance(cls, type):     # (the keys event above already differs from the first pass)
+            continue
         slots = list(cls.__slots__)
         rec.add('CatalogEntry', P, nt=True, second_pass=True, sigx=str(cls.name), key=as_int(key), name=str(cls.name),
                 frame_id=as_int(cls.frame_id), index=as_int(cls.index), slots=slots,
@@ -535,6 +549,15 @@ def drive_c17(ctx):
         if exceptions.CLASS_MAPPING.get(code) is not None:
             get_ok.append(code)
     rec.add('UndefinedCodes', P, nt=True, subscript_ok=sub_ok, contains=cont, get_ok=get_ok, other_exc=other)
+    # ordinary application use of an exception hierarchy: subclasses of the reply-code classes (plain, with a second
+    # base, with their own value) are defined; the catalogue must still map every code to the specification's class
+    for _k, _c in list(exceptions.CLASS_MAPPING.items()):
+        try:
+            type('App' + _c.__name__, (_c,), {})
+            type('App2' + _c.__name__, (_c, exceptions.AMQPSoftError if issubclass(_c, exceptions.AMQPSoftError) else exceptions.AMQPHardError), {})
+            type('App3' + _c.__name__, (_c,), {'value': 310, 'name': 'NOT-DELIVERED'})
+        except TypeError:
+            pass
     items = list(exceptions.CLASS_MAPPING.items())
     rec.add('ReplyKeys', P, nt=True, keys=sorted(as_int(k) for k, _ in items), classes=sorted(set(c.__name__ for _, c in items)))
     for key, cls in items:
@@ -642,6 +665,14 @@ def drive_c07(ctx):
     for b in frames:
         cuts = None if len(b) <= (700 if ctx.quick else 4200) else strategic_cuts(rng, len(b))
         rec.add('CutSet', ['C07'], nt=len(b) > 8, sigx='type%d' % b[0], **actions.cutset(b, cuts))
+    # the same through ONE reused bytearray receive buffer, short frames first (their bytes are what is left behind),
+    # with bodies that carry the frame-end octet at the places a stale, shorter frame would end
+    from pamqp import body as _body, heartbeat as _hb
+    short = [_frame.marshal(_hb.Heartbeat(), 0), _frame.marshal(_body.ContentBody(b'abc'), 1), _frame.marshal(_body.ContentBody(b'\xce'), 1)]
+    longer = [_frame.marshal(_body.ContentBody(b'\xce' * n), 1) for n in (4, 12, 40)] + \
+             [_frame.marshal(_body.ContentBody(b'abc\xce' + b'\xce' * 20), 1)]
+    for b in short + longer + [x for x in frames if len(x) <= 300][:20 if ctx.quick else 200]:
+        rec.add('CutSet', ['C07'], nt=True, sigx='reused-buffer', **actions.cutset(b, None, reuse=True))
 
 
 # ---------------------------------------------------------------------------
@@ -685,6 +716,8 @@ def drive_c20(ctx):
             rec.add('Peek', P, nt=True, **ev)
             ev = actions.peek(_commands.Connection.StartOk(response='r' * n), 0, b'')
             rec.add('Peek', P, nt=True, **ev)
+    if ctx.shard == 6:
+        negotiation_then_content(ctx, P, 'Peek')
     # a body frame whose bytes 4..7 spell "AMQP" (size 0x414D51, first payload octet 'P') and near misses
     if ctx.shard == 5:
         for n, first in ((0x414D51, b'P'), (0x414D51, b'Q'), (0x414D50, b'P')):
@@ -715,6 +748,12 @@ def drive_c19(ctx):
                 a, ty, d = rng.choice(args)
                 setattr(f, a, framegen.valid_arg(rng, '-', '-', ty))
                 rec.add('Observe', P, nt=True, stage='after-setattr', **actions.observe(f))
+            for weird in ((), (1, 2), ('a',), [], None, {'k': 1}):
+                if args and (rep + i) % 3 == 0:
+                    a, ty, d = rng.choice(args)
+                    h_ = framegen.rand_method(rng, sm)
+                    setattr(h_, a, weird)
+                    rec.add('Observe', P, nt=True, stage='after-setattr-exotic', **actions.observe(h_))
             try:
                 g = frame.unmarshal(frame.marshal(framegen.rand_method(rng, sm), 1))[2]
                 rec.add('Observe', P, nt=True, stage='decoded', **actions.observe(g))
@@ -785,6 +824,33 @@ def drive_c13(ctx):
             base2 = framegen.method_kwargs(rng, sm)
             base2[a] = v
             rec.add('Construct', P, nt=True, sigx='%s.%s' % (name, a), **actions.construct(name, base2))
+    # several constrained arguments of ONE class carrying the SAME value (limits differ: exchange 127, queue 256)
+    byclass = {}
+    for sm, a, ty, vals in constrained:
+        if (sm[0], a) in framegen.EXCH or (sm[0], a) in framegen.QUEUE:
+            byclass.setdefault(sm[0], (sm, []))[1].append(a)
+    for name, (sm, argnames) in byclass.items():
+        if len(argnames) < 2:
+            continue
+        for v in ['q' * n for n in (126, 127, 128, 200, 255, 256, 257)] + ['a\nb', 'ok.name', '']:
+            k += 1
+            if not mine(ctx, k):
+                continue
+            kw = {a: v for a in argnames}
+            rec.add('Construct', P, nt=True, sigx=name + '.same-value', **actions.construct(name, kw))
+            base = framegen.method_kwargs(rng, sm)
+            o_kw = dict(base)
+            ev = actions.set_then_marshal(name, o_kw, argnames[0], v)
+            rec.add('SetThenMarshal', P, nt=True, sigx=name + '.same-value', **ev)
+            # both set after construction
+            from abstraction import class_by_name
+            obj = class_by_name(name)(**framegen.method_kwargs(rng, sm))
+            for a in argnames:
+                setattr(obj, a, v)
+            from pamqp import frame as _fr
+            fin = actions.a_frame(obj)
+            out = actions._call(_fr.marshal, obj, 1)
+            rec.add('SetThenMarshal', P, nt=True, sigx=name + '.same-value', cls=name, arg=argnames[0], ch=1, out=out, **{'in': fin})
     # unconstrained arguments accept anything of their type; all-valid random constructions
     for i, sm in enumerate(framegen.METHODS):
         if mine(ctx, i):
@@ -1183,6 +1249,8 @@ def drive_c10(ctx):
     from pamqp import body, commands, header
     rec, rng = ctx.rec, ctx.rng
     P = ['C10']
+    if ctx.shard == 3:
+        ambient_decimal_context(ctx, P)
     replay_small_values(ctx, P)
     vals = wild_ints(rng) + wild_decimals(rng) + wild_datetimes(rng) + wild_misc(rng) + \
         [gen.rand_float(rng, allow_overflow=True) for _ in range(60)]
@@ -1334,6 +1402,16 @@ def tz_instants(rng, n):
                     s = base + h * 3600 + d
                     if 0 <= s < 2 ** 32:
                         secs.append(s)
+    try:
+        import zoneinfo
+        for zname, (mo, da, ho, mi) in (('America/New_York', (11, 7, 1, 30)), ('Europe/London', (10, 31, 1, 15)),
+                                        ('Australia/Lord_Howe', (4, 4, 1, 45)), ('Australia/Sydney', (4, 4, 2, 30))):
+            z = zoneinfo.ZoneInfo(zname)
+            for us in (0, 250000):
+                for fold in (0, 1, 0):          # the repeated hour of 2021: same wall time, same tzinfo object, both folds
+                    out.append(dtm.datetime(2021, mo, da, ho, mi, 0, us, tzinfo=z, fold=fold))
+    except Exception:  # noqa  (no zone database: the fixed-offset cases remain)
+        pass
     secs = rng.sample(secs, min(len(secs), n)) + [rng.randint(0, 2 ** 32 - 1) for _ in range(n // 2)]
     for s in secs:
         t = dtm.datetime(1970, 1, 1, tzinfo=U) + dtm.timedelta(seconds=s)
@@ -1410,6 +1488,9 @@ def drive_c16(ctx):
             good = wiregen.rand_method_frame(rng, rng.choice(heapdrv.WITH_TABLE), lenient=False)
             ctx.rec.add('Unmarshal', ['C16'], nt=True, label='after-faults', wf=True, **actions.unmarshal(good))
     history_insensitivity(ctx, ['C16'])
+    cross_thread_toggles(ctx, ['C16'])
+    if ctx.shard == 1:
+        ambient_decimal_context(ctx, ['C16'])
     scheds = ctx.gen.get('schedules')
     threads.run(ctx, ['C16'], scheds, 6 if ctx.quick else 120)
 
@@ -1745,3 +1826,85 @@ def header_failure_pairs(ctx, props, n):
         for c in [x for x in cuts if 14 <= x < len(payload)][:12]:
             rec.add('Unmarshal', props, nt=True, label='header-fail', **actions.unmarshal(wiregen.envelope(2, 5, payload[:c])))
             rec.add('Unmarshal', props, nt=True, label='header-after-fail', wf=True, **actions.unmarshal(good))
+
+
+def negotiation_then_content(ctx, props, action):
+    """a Connection.Tune / TuneOk with a non-zero frame_max is marshalled, then bodies around that size: whatever was
+    negotiated, frame.marshal emits ONE body frame and the peeked size + 8 is its length"""
+    from pamqp import body, commands, frame
+    rec, rng = ctx.rec, ctx.rng
+    for fm in (4096, 8192):
+        for cls in (commands.Connection.Tune, commands.Connection.TuneOk):
+            t = cls(channel_max=10, frame_max=fm, heartbeat=60)
+            if action == 'Peek':
+                rec.add('Peek', props, nt=True, **actions.peek(t, 0, b''))
+            else:
+                rec.add('RoundTrip', props, nt=True, **actions.roundtrip(t, 0))
+            for n in (fm - 9, fm - 8, fm - 7, fm, 2 * fm + 100):
+                b = body.ContentBody(bytes(rng.getrandbits(8) for _ in range(n)))
+                if action == 'Peek':
+                    rec.add('Peek', props, nt=True, **actions.peek(b, 3, b'xy'))
+                else:
+                    rec.add('RoundTrip', props, nt=True, **actions.roundtrip(b, 3))
+    # leave the defaults behind
+    frame.marshal(commands.Connection.TuneOk(), 0)
+    frame.marshal(commands.Connection.Tune(), 0)
+
+
+def cross_thread_toggles(ctx, props):
+    """the switch is process-global: set in one thread, changed in another, read in the first"""
+    import queue
+    import threading
+    rec = ctx.rec
+    q, done = queue.Queue(), queue.Queue()
+
+    def worker():
+        while True:
+            job = q.get()
+            if job is None:
+                return
+            done.put(job())
+    t = threading.Thread(target=worker)
+    t.start()
+    try:
+        for a_mode, b_mode in (('noarg', 'false'), ('false', 'true'), ('true', 'false')):
+            q.put(lambda m=a_mode: actions.toggle(m))
+            rec.add('Toggle', props, nt=True, thread='worker', **done.get())
+            rec.add('Toggle', props, nt=True, thread='main', **actions.toggle(b_mode))
+            for x in (40000, 3000000000, [65535, {'k': 2 ** 31}]):
+                q.put(lambda v=x: actions.encode_value(v, 'top'))
+                rec.add('EncodeValue', props, nt=True, thread='worker', **done.get())
+                rec.add('EncodeValue', props, nt=True, thread='main', **actions.encode_value(x, 'top'))
+    finally:
+        q.put(None)
+        t.join()
+    rec.add('Toggle', props, **actions.toggle('false'))
+
+
+def ambient_decimal_context(ctx, props):
+    """the application owns decimal.getcontext() (precision, rounding, traps): a codec call must not depend on it"""
+    import decimal
+    from pamqp import commands, header
+    rec, rng = ctx.rec, ctx.rng
+    D = decimal.Decimal
+    vals = [D('1234.5678'), D('-21474836.47'), D('0.000001'), D('2147483647'), D('1E+3'), D('12345678.9'), D('-0.5'),
+            gen.rand_decimal_fitting(rng), gen.rand_decimal_fitting(rng)]
+    settings = [dict(prec=1), dict(prec=3), dict(prec=6, rounding=decimal.ROUND_FLOOR), dict(prec=50), dict(prec=4, Emax=9, Emin=-9),
+                dict(prec=6, trap=True)]
+    for st_ in (settings if not ctx.quick else settings[:4] + settings[5:]):
+        with decimal.localcontext() as c:
+            c.prec = st_['prec']
+            if 'rounding' in st_:
+                c.rounding = st_['rounding']
+            if 'Emax' in st_:
+                c.Emax, c.Emin = st_['Emax'], st_['Emin']
+            if st_.get('trap'):
+                c.traps[decimal.Inexact] = True
+                c.traps[decimal.Rounded] = True
+            for v in vals:
+                rec.add('EncodeValue', props, nt=True, label='decimal-context', **actions.encode_value(v, 'top'))
+                rec.add('EncodeValue', props, nt=True, label='decimal-context', **actions.encode_value({'price': v, 'l': [v]}, 'table'))
+            h = header.ContentHeader(0, 1, commands.Basic.Properties(headers={'amount': vals[0], 'fee': vals[2]}, priority=1))
+            rec.add('RoundTrip', props, nt=True, label='decimal-context', **actions.roundtrip(h, 1))
+            rec.add('RoundTrip', props, nt=True, label='decimal-context', **actions.roundtrip(
+                commands.Queue.Declare(queue='q', arguments={'x-price': vals[1]}), 1))
